@@ -4,10 +4,15 @@ package quic
 
 import (
 	"context"
+	"fmt"
+	"runtime"
+	"strings"
 	"sync"
 
 	"github.com/refraction-networking/uquic/internal/handshake"
+	"github.com/refraction-networking/uquic/internal/monotime"
 	"github.com/refraction-networking/uquic/internal/protocol"
+	"github.com/refraction-networking/uquic/internal/qerr"
 	"github.com/refraction-networking/uquic/internal/utils"
 	"github.com/refraction-networking/uquic/qlogwriter"
 	tls "github.com/refraction-networking/utls"
@@ -51,6 +56,21 @@ func init() {
 				verifOwn.set = true
 				verifOwn.mu.Unlock()
 			}
+			// tap (read only): remember what the TLS stack hands over for the Initial CRYPTO stream
+			rec := &VerifCHRec{Version: uint32(v), SrcConnID: append([]byte{}, srcConnID.Bytes()...)}
+			verifCH.mu.Lock()
+			if len(verifCH.recs) >= 64 { // nobody is taking them (another driver): keep the list short
+				verifCH.recs = verifCH.recs[1:]
+			}
+			verifCH.recs = append(verifCH.recs, rec)
+			verifCH.mu.Unlock()
+			c.cryptoStreamHandler = &verifCHTap{cryptoStreamHandler: c.cryptoStreamHandler, rec: rec}
+			verifGuard.mu.Lock()
+			guard := verifGuard.on
+			verifGuard.mu.Unlock()
+			if guard {
+				c.packer = &verifPackerGuard{packer: c.packer}
+			}
 		}
 		return c
 	}
@@ -64,4 +84,175 @@ func VerifTakeOwnOverride() ([]byte, bool) {
 	b, ok := verifOwn.override, verifOwn.set
 	verifOwn.override, verifOwn.set = nil, false
 	return b, ok
+}
+
+// VerifCHRec is what the TLS stack of ONE uQUIC client connection handed over for the Initial CRYPTO stream, in
+// order (EventWriteInitialData events: the ClientHello; a second ClientHello after a HelloRetryRequest). It is
+// taken where the connection reads the events, i.e. BEFORE the crypto stream, the frame builders and the packer.
+type VerifCHRec struct {
+	Version   uint32
+	SrcConnID []byte
+	Writes    [][]byte
+}
+
+var verifCH struct {
+	mu   sync.Mutex
+	recs []*VerifCHRec
+}
+
+// verifCHTap forwards every call to the connection's real crypto setup; NextEvent copies Initial-level data.
+type verifCHTap struct {
+	cryptoStreamHandler
+	rec *VerifCHRec
+}
+
+func (t *verifCHTap) NextEvent() handshake.Event {
+	ev := t.cryptoStreamHandler.NextEvent()
+	if ev.Kind == handshake.EventWriteInitialData {
+		verifCH.mu.Lock()
+		t.rec.Writes = append(t.rec.Writes, append([]byte{}, ev.Data...))
+		verifCH.mu.Unlock()
+	}
+	return ev
+}
+
+// VerifTakeCH returns (copies of) the records of all uQUIC client connections created since the last call.
+func VerifTakeCH() []VerifCHRec {
+	verifCH.mu.Lock()
+	defer verifCH.mu.Unlock()
+	out := make([]VerifCHRec, 0, len(verifCH.recs))
+	for _, r := range verifCH.recs {
+		c := VerifCHRec{Version: r.Version, SrcConnID: r.SrcConnID}
+		for _, w := range r.Writes {
+			c.Writes = append(c.Writes, append([]byte{}, w...))
+		}
+		out = append(out, c)
+	}
+	verifCH.recs = nil
+	return out
+}
+
+// ---- packer guard (opt-in, for end-to-end drivers that run many connections in ONE process) ----
+// A panic inside the packer happens on the connection's run goroutine and would take the whole driver process
+// down, so that the driver could not even report it. With VerifGuardPacker(true), connections created afterwards
+// get a forwarding wrapper around Conn.packer that turns such a panic into (a) a recorded observation (panic
+// value + the two innermost uquic functions) and (b) an error return, which closes the connection.
+
+var verifGuard struct {
+	mu     sync.Mutex
+	on     bool
+	panics []string
+}
+
+func VerifGuardPacker(on bool) {
+	verifGuard.mu.Lock()
+	verifGuard.on = on
+	verifGuard.mu.Unlock()
+}
+
+// VerifTakePackerPanics returns and clears the recorded packer panics: `<fn><<caller>:<panic value>`.
+func VerifTakePackerPanics() []string {
+	verifGuard.mu.Lock()
+	defer verifGuard.mu.Unlock()
+	out := verifGuard.panics
+	verifGuard.panics = nil
+	return out
+}
+
+type verifPackerGuard struct{ packer }
+
+func (g *verifPackerGuard) caught(where string, e any, err *error) {
+	var fns []string
+	pcs := make([]uintptr, 64)
+	n := runtime.Callers(2, pcs)
+	frames := runtime.CallersFrames(pcs[:n])
+	inPanic := false
+	for {
+		fr, more := frames.Next()
+		if strings.HasPrefix(fr.Function, "runtime.") {
+			inPanic = true
+		} else if inPanic && strings.Contains(fr.Function, "/uquic.") && !strings.Contains(fr.Function, "verifPackerGuard") {
+			name := fr.Function[strings.LastIndex(fr.Function, ".")+1:]
+			fns = append(fns, name)
+			if len(fns) == 2 {
+				break
+			}
+		}
+		if !more {
+			break
+		}
+	}
+	msg := strings.Map(func(r rune) rune {
+		if r == ' ' || r == '\t' || r == '\n' || r == ';' || r == '|' || r == ',' {
+			return '_'
+		}
+		return r
+	}, fmt.Sprint(e))
+	verifGuard.mu.Lock()
+	verifGuard.panics = append(verifGuard.panics, strings.Join(fns, "<")+":"+msg)
+	verifGuard.mu.Unlock()
+	*err = fmt.Errorf("verif: panic in %s: %v", where, e)
+}
+
+func (g *verifPackerGuard) PackCoalescedPacket(onlyAck bool, max protocol.ByteCount, now monotime.Time, v protocol.Version) (cp *coalescedPacket, err error) {
+	defer func() {
+		if e := recover(); e != nil {
+			cp = nil
+			g.caught("PackCoalescedPacket", e, &err)
+		}
+	}()
+	return g.packer.PackCoalescedPacket(onlyAck, max, now, v)
+}
+
+func (g *verifPackerGuard) PackPTOProbePacket(l protocol.EncryptionLevel, max protocol.ByteCount, addPing bool, now monotime.Time, v protocol.Version) (cp *coalescedPacket, err error) {
+	defer func() {
+		if e := recover(); e != nil {
+			cp = nil
+			g.caught("PackPTOProbePacket", e, &err)
+		}
+	}()
+	return g.packer.PackPTOProbePacket(l, max, addPing, now, v)
+}
+
+func (g *verifPackerGuard) AppendPacket(b *packetBuffer, max protocol.ByteCount, now monotime.Time, v protocol.Version) (p shortHeaderPacket, err error) {
+	defer func() {
+		if e := recover(); e != nil {
+			g.caught("AppendPacket", e, &err)
+		}
+	}()
+	return g.packer.AppendPacket(b, max, now, v)
+}
+
+func (g *verifPackerGuard) PackConnectionClose(e0 *qerr.TransportError, max protocol.ByteCount, v protocol.Version) (cp *coalescedPacket, err error) {
+	defer func() {
+		if e := recover(); e != nil {
+			cp = nil
+			g.caught("PackConnectionClose", e, &err)
+		}
+	}()
+	return g.packer.PackConnectionClose(e0, max, v)
+}
+
+func (g *verifPackerGuard) PackApplicationClose(e0 *qerr.ApplicationError, max protocol.ByteCount, v protocol.Version) (cp *coalescedPacket, err error) {
+	defer func() {
+		if e := recover(); e != nil {
+			cp = nil
+			g.caught("PackApplicationClose", e, &err)
+		}
+	}()
+	return g.packer.PackApplicationClose(e0, max, v)
+}
+
+// VerifPoisonPacketBuffers hands n DIRTY buffers to the packet buffer pool (full length, every byte 0xA5, a stale
+// reference count): what a buffer looks like when the previous user did not clean up. getPacketBuffer must hand out
+// an empty buffer with reference count 1 whatever state the pooled object is in, and nothing that is sent may
+// depend on the bytes beyond len(Data) being zero.
+func VerifPoisonPacketBuffers(n int) {
+	for i := 0; i < n; i++ {
+		d := make([]byte, protocol.MaxPacketBufferSize)
+		for j := range d {
+			d[j] = 0xA5
+		}
+		bufferPool.Put(&packetBuffer{Data: d, refCount: 3})
+	}
 }
